@@ -39,7 +39,7 @@ Ann(t) == [name |-> AN, value |-> t]
 FullArg == [name |-> AX, type |-> TS, direction |-> "in", annotations |-> <<>>]
 OutArg  == [name |-> AX, type |-> TD, direction |-> "out", annotations |-> <<>>]
 ArgVariants ==
-  {[type |-> TS, annotations |-> <<>>] @@ nm @@ dr : nm \in OptN("name", {AX}), dr \in OptN("direction", {"in", "out"})}
+  {[type |-> TS, annotations |-> <<>>] @@ nm @@ dr : nm \in OptN("name", {AX, <<>>}), dr \in OptN("direction", {"in", "out"})}
   \cup {[name |-> AX, type |-> t, direction |-> "in", annotations |-> <<>>] : t \in {TD, TR}}
 ArgLists == {<<>>} \cup {<<a>> : a \in ArgVariants} \cup {<<a, OutArg>> : a \in ArgVariants}
 
@@ -77,8 +77,8 @@ S4 == {Named(NA, Take(<<Iface(IA, Take(<<Meth(MM, <<FullArg>>, <<>>), Meth(MN, <
 (* S5: node structure and optional node names *)
 Leaf == Named(NC, <<>>, <<>>)
 S5 == {r @@ Node(<<BaseIface>>, kids) :
-         r \in OptN("name", {NA, NC}),
-         kids \in {<<>>, <<Leaf>>, <<Node(<<>>, <<>>)>>, <<Named(NC, <<BaseIface>>, <<>>)>>,
+         r \in OptN("name", {NA, NC, <<>>}),
+         kids \in {<<>>, <<Leaf>>, <<Node(<<>>, <<>>)>>, <<Named(<<>>, <<>>, <<>>)>>, <<Named(NC, <<BaseIface>>, <<>>)>>,
                    <<Named(NC, <<>>, <<Named(ND, <<>>, <<>>)>>)>>, <<Leaf, Named(ND, <<>>, <<Node(<<>>, <<>>)>>)>>}}
 
 Docs == S1 \cup S2 \cup S3 \cup S4 \cup S5
